@@ -45,6 +45,6 @@ func runC13(c *Ctx) {
 	c.floor("Z.RECHECK", 2)
 	c.floor("Z.PUBLISH", 2)
 	c.runLoopCapture("GO", pkgs)
-	c.floor("GO.CAPTURE", 4)
+	c.floor("GO.CAPTURE", 1)
 	c.floor("GO.STRIDE", 0)
 }
